@@ -243,6 +243,52 @@ pub open spec fn sharded_temp_frame(old: World, fin: World, root: PathV, n: usiz
     &&& forall|p: PathV| old.files.contains_key(p) && !(#[trigger] fin.files.contains_key(p)) ==> exists|i: usize| i < n && p.len() > 0 && parent(p) == #[trigger] child(shard_dir_of(root, i), temp_name())
 }
 
+/// The copy a sharded directory returns: the primary candidate's, else the secondary's.
+pub open spec fn sharded_lookup(links: Map<PathV, InodeId>, root: PathV, n: usize, key: Key) -> Option<InodeId> {
+    let s = shard_ids_spec(key.hash, key.secondary_hash, n);
+    if links.contains_key(entry_in(root, s.0, str_bytes(key.name))) {
+        Some(links[entry_in(root, s.0, str_bytes(key.name))])
+    } else if links.contains_key(entry_in(root, s.1, str_bytes(key.name))) {
+        Some(links[entry_in(root, s.1, str_bytes(key.name))])
+    } else {
+        None
+    }
+}
+
+/// Preparing a temporary directory changes what no lookup returns.
+pub proof fn lemma_sharded_lookup_temp_frame(old: World, fin: World, root: PathV, n: usize, key: Key)
+    requires
+        sharded_temp_frame(old, fin, root, n),
+    ensures
+        sharded_lookup(fin.files, root, n, key) == sharded_lookup(old.files, root, n, key),
+{
+    let s = shard_ids_spec(key.hash, key.secondary_hash, n);
+    let p1 = entry_in(root, s.0, str_bytes(key.name));
+    let p2 = entry_in(root, s.1, str_bytes(key.name));
+    assert(p1.len() == root.len() + 2 && p2.len() == root.len() + 2);
+    assert(parent(p1).len() == root.len() + 1 && parent(p2).len() == root.len() + 1);
+    assert forall|i: usize| (#[trigger] child(shard_dir_of(root, i), temp_name())).len() == root.len() + 2 by {}
+    if old.files.contains_key(p1) && !fin.files.contains_key(p1) {
+        assert(false);
+    }
+    if old.files.contains_key(p2) && !fin.files.contains_key(p2) {
+        assert(false);
+    }
+}
+
+/// Nothing directly inside a shard's `.kismet_temp` is ever what a sharded lookup returns.
+pub proof fn lemma_sharded_temp_blind(root: PathV, n: usize, j: usize)
+    ensures
+        forall|links: Map<PathV, InodeId>, nm: Seq<u8>, i: InodeId, key: Key| #[trigger] sharded_lookup(links.insert(child(child(shard_dir_of(root, j), temp_name()), nm), i), root, n, key) == sharded_lookup(links, root, n, key),
+{
+    assert forall|links: Map<PathV, InodeId>, nm: Seq<u8>, i: InodeId, key: Key| #[trigger] sharded_lookup(links.insert(child(child(shard_dir_of(root, j), temp_name()), nm), i), root, n, key) == sharded_lookup(links, root, n, key) by {
+        let s = shard_ids_spec(key.hash, key.secondary_hash, n);
+        assert(entry_in(root, s.0, str_bytes(key.name)).len() == root.len() + 2);
+        assert(entry_in(root, s.1, str_bytes(key.name)).len() == root.len() + 2);
+        assert(child(child(shard_dir_of(root, j), temp_name()), nm).len() == root.len() + 3);
+    }
+}
+
 pub proof fn lemma_temp_frames(old: World, o2: World, root: PathV, n: usize, i: usize)
     requires
         i < n,
@@ -440,7 +486,15 @@ pub open spec fn sharded_frame(old: World, fin: World, root: PathV, n: usize, na
                  ('C02 C16 C12:temp-dir-is-the-kismet-temp-subdirectory-of-a-shard-of-this-cache',
                   'r.is_ok() ==> exists|i: usize| i < self.spec_n() && cowv(r.unwrap()) == #[trigger] child(shard_dir_of(self.spec_root(), i), temp_name()) && final(w).dirs.contains(cowv(r.unwrap()))'),
                  ('C17 C15 C16:only-stale-temporary-files-go-and-only-directories-of-this-cache-are-created', 'sharded_temp_frame(*old(w), *final(w), self.spec_root(), self.spec_n())'),
-                 ('C18:error-is-a-real-fault', 'r.is_err() ==> final(w).hard_faults > old(w).hard_faults')])
+                 ('C18:error-is-a-real-fault', 'r.is_err() ==> final(w).hard_faults > old(w).hard_faults'),
+                 ('C02 C13:asking-for-a-temp-dir-changes-no-lookup',
+                  'forall|k: Key| #[trigger] sharded_lookup(final(w).files, self.spec_root(), self.spec_n(), k) == sharded_lookup(old(w).files, self.spec_root(), self.spec_n(), k)'),
+                 ('C02 C13 C01:files-inside-the-temp-dir-are-invisible-to-lookups',
+                  'r.is_ok() ==> forall|links: Map<PathV, InodeId>, nm: Seq<u8>, i: InodeId, k: Key| #[trigger] sharded_lookup(links.insert(child(cowv(r.unwrap()), nm), i), self.spec_root(), self.spec_n(), k) '
+                  '== sharded_lookup(links, self.spec_root(), self.spec_n(), k)'),
+                 ('C02 C16:the-temp-dir-is-a-kismet-temp-directory-outside-every-read-only-root',
+                  'r.is_ok() ==> final(w).is_temp_dir(cowv(r.unwrap())) && !final(w).under_ro(cowv(r.unwrap())) && forall|nm: Seq<u8>| !final(w).under_ro(#[trigger] child(cowv(r.unwrap()), nm))'),
+                 ])
     td.body_start('broadcast use group_sharded;')
     td.insert_after('let shard = self . shard ( shard_id ) ;',
                     '\n        proof { if key.is_some() { lemma_shard_ids(key.unwrap().hash, key.unwrap().secondary_hash, self.spec_n()); } '
@@ -448,7 +502,11 @@ pub open spec fn sharded_frame(old: World, fin: World, root: PathV, n: usize, na
                     '}')
     td.insert_before('shard . cleanup_temp_directory', 'proof { lemma_temp_frames(*old(w), *w, self.spec_root(), self.spec_n(), shard_id); }\n            ')
     td.insert_before('Ok ( Cow :: from ( shard . ensure_temp_dir', 'proof { if w.same_fs(*old(w)) { lemma_temp_frames(*old(w), *w, self.spec_root(), self.spec_n(), shard_id); } '
-                     'assert(sharded_temp_frame(*old(w), *w, self.spec_root(), self.spec_n())); lemma_temp_frames(*old(w), *old(w), self.spec_root(), self.spec_n(), shard_id); }\n        ')
+                     'assert(sharded_temp_frame(*old(w), *w, self.spec_root(), self.spec_n())); lemma_temp_frames(*old(w), *old(w), self.spec_root(), self.spec_n(), shard_id); '
+                     'lemma_sharded_temp_blind(self.spec_root(), self.spec_n(), shard_id); '
+                     'assert forall|fin: World, k: Key| sharded_temp_frame(*old(w), fin, self.spec_root(), self.spec_n()) implies '
+                     '#[trigger] sharded_lookup(fin.files, self.spec_root(), self.spec_n(), k) == sharded_lookup(old(w).files, self.spec_root(), self.spec_n(), k) by { '
+                     'lemma_sharded_lookup_temp_frame(*old(w), fin, self.spec_root(), self.spec_n(), k); } }\n        ')
 
     # ---- writes ----------------------------------------------------------------------------------
     for opname, nsteps in (('set', 12), ('put', 14)):
@@ -471,6 +529,8 @@ pub open spec fn sharded_frame(old: World, fin: World, root: PathV, n: usize, na
                  '&& final(w).published == old(w).published' % BADNAME),
                 ('C12 C16:an-entry-is-only-ever-stored-under-one-of-its-two-candidate-shards',
                  'forall|p: PathV| #[trigger] final(w).files.contains_key(p) && !old(w).files.contains_key(p) ==> p == %s || p == %s' % (P1, P2)),
+                ('C13 C11:success-means-a-publication-happened' + ('' if opname == 'set' else '-unless-the-key-was-already-bound'),
+                 'r.is_ok() ==> final(w).published > old(w).published' + ('' if opname == 'set' else ' || old(w).files.contains_key(%s) || old(w).files.contains_key(%s)' % (P1, P2))),
                 ('C11:a-sharded-cache-never-ends-up-with-two-copies-of-one-key',
                  'final(w).hard_faults == old(w).hard_faults && !(old(w).files.contains_key(%s) && old(w).files.contains_key(%s)) && !old(w).dirs.contains(%s) && !old(w).dirs.contains(%s) '
                  '==> !(final(w).files.contains_key(%s) && final(w).files.contains_key(%s))' % (P1, P2, P1, P2, P1, P2)),
